@@ -18,7 +18,7 @@ def programs(level):
         keep = ("var|type=int|", "var|type=bool|access=name", "var|type=list|access=from", "var|type=dict|access=name", "var|type=odict|access=name",
                 "var|type=ppath|access=name", "var|type=float|access=name", "var|type=str|access=name", "var|type=tuple|access=name",
                 "var|type=none_int|access=name", "var|type=nested|access=name", "var|type=relpath|access=name", "var|type=date|access=name",
-                "var|type=cfunc|access=from", "var|type=dict_order|access=name", "body|", "arg|", "ext|", "struct|", "untracked", "twice_rt")
+                "var|type=cfunc|access=from", "var|type=dict_order|access=name", "body|", "arg|", "ext|", "struct|", "untracked", "twice_rt", "import_inside_function", "shadow")
         units = [sp for sp in units if sp["key"].startswith(keep) and (not sp["key"].startswith("var|") or sp["id"].endswith(("/direct", "/helper2", "/stmt/from", "/method")) or "ctx=" in sp["key"])]
     from ..checks import c09
     loads = [c09.make_spec(pl, pr) for pl in c09.PLACEMENTS for pr in ("datafn", "keepcall")]
@@ -47,7 +47,9 @@ def table(job):
             os.makedirs(d)
             for n in ("str", "len", "list", "range", "sorted", "dict", "set", "print", "filter", "format", "type", "input",
                       # ... or with a name the programs only use for a lambda / nested-def parameter, an 'except ... as' target, a loop variable
-                      "row", "err", "q", "_k"):
+                      "row", "err", "q", "_k",
+                      # ... or a name bound by an import statement / a def inside the function body
+                      "h1", "_inner0", "_inner1"):
                 open(os.path.join(d, n + ".py"), "w").write("IMPORTED_BY_ACCIDENT = True\n")
             sys.path.insert(0, d)
         w = World(scratch)
